@@ -48,6 +48,8 @@ def main():
     earlier = {}
     root = os.path.join(HERE, "seeded")
     for n in sorted(os.listdir(root)):
+        if not os.path.isdir(os.path.join(root, n)):
+            continue
         m = json.load(open(os.path.join(root, n, "meta.json")))
         earlier.setdefault(m["property"], []).append(" - %s (needs: %s)" % ((m.get("summary") or open(os.path.join(root, n, "demo.py")).read()[:260])[:260].replace("\n", " "), m.get("needs", "")[:170].replace("\n", " ")))
     for p in props:
